@@ -45,7 +45,7 @@ def run_demo(demo_src, repo_path, work):
             if f == "Cargo.toml":
                 p = os.path.join(root, f)
                 s = open(p).read()
-                s = re.sub(r"/tmp/seed2?/(C\d\d|w\d)", repo_path, s)
+                s = re.sub(r"/tmp/(?:seed2?|r\d+)/(?:C\d\d|w\d)", repo_path, s)
                 open(p, "w").write(s)
     lock = os.path.join(repo_path, "Cargo.lock")
     if os.path.exists(lock):
